@@ -19,7 +19,11 @@
 //     unexported method, the lock that ALL its callers hold (`entryHeld`, greatest fixpoint) - this is
 //     how createUDPClient ("invoked with an exclusive lock on cp.mutex") is accounted for;
 //   - the goroutine roots (exported methods, go literals, callbacks, methods started with `go`) and for
-//     every unit the roots it is reachable from.
+//     every unit the roots it is reachable from;
+//   - `deadlineCalls`: (enclosing top-level function, method) for every call of a method named SetDeadline /
+//     SetReadDeadline / SetWriteDeadline in ANY non-test .go file of pkg/collector (the directory is listed;
+//     files that VERIF_MUTANT_OVERLAY adds to the directory are read too). The unchanged collector arms no
+//     deadline on any connection; Props/C12 `tie_collector_arms_no_deadline` requires the list to be empty.
 //
 // Output: IpfixModel/Generated/LocksCollector.lean (namespace Generated.LocksCollector).
 //
@@ -449,6 +453,43 @@ func lbool(b bool) string {
 	return "false"
 }
 
+var parsedByPath = map[string]*ast.File{} // path actually read -> file
+
+// collectorSources lists the non-test .go files of <repo>/pkg/collector as the compiler would see them under
+// VERIF_MUTANT_OVERLAY: a replaced file is read from its replacement, a file the overlay adds is included, a
+// file the overlay maps to "" is gone.
+func collectorSources(repo string) []string {
+	dir := filepath.Join(repo, "pkg", "collector")
+	ents, err := os.ReadDir(dir)
+	if err != nil {
+		die("%v", err)
+	}
+	src := func(name string) bool { return strings.HasSuffix(name, ".go") && !strings.HasSuffix(name, "_test.go") }
+	real := map[string]bool{}
+	for _, e := range ents {
+		if !e.IsDir() && src(e.Name()) {
+			real[filepath.Join(dir, e.Name())] = true
+		}
+	}
+	for p := range overlay {
+		if filepath.Dir(p) == dir && src(filepath.Base(p)) {
+			real[p] = true
+		}
+	}
+	var out []string
+	for p := range real {
+		if alt, ok := overlay[p]; ok {
+			if alt == "" {
+				continue
+			}
+			p = alt
+		}
+		out = append(out, p)
+	}
+	sort.Strings(out)
+	return out
+}
+
 func main() {
 	if len(os.Args) != 3 {
 		die("usage: lockfacts-collector <repo> <outdir>")
@@ -473,6 +514,7 @@ func main() {
 			die("%v", err)
 		}
 		parsed[rel] = f
+		parsedByPath[path] = f
 	}
 	// the struct
 	found := false
@@ -784,6 +826,56 @@ func main() {
 			b.WriteString(", ")
 		}
 		fmt.Fprintf(&b, "(%s, %d, %s)", q(u.file), u.line, q(u.kind))
+	}
+	b.WriteString("]\n\n")
+	// Deadlines: the model's connections deliver whatever arrives, whenever it arrives. Every call of a method
+	// named Set(Read|Write)?Deadline anywhere in the package's non-test files is listed (by name only - there is
+	// no type checker here: a method of that name on anything is reported).
+	type dlCall struct {
+		file, fn, method string
+		line             int
+	}
+	var dls []dlCall
+	for _, path := range collectorSources(repo) {
+		f := parsedByPath[path]
+		if f == nil {
+			var err error
+			if f, err = parser.ParseFile(fset, path, nil, 0); err != nil {
+				die("%v", err)
+			}
+		}
+		for _, d := range f.Decls {
+			encl := "<package level>"
+			if fd, ok := d.(*ast.FuncDecl); ok {
+				encl = fd.Name.Name
+			}
+			ast.Inspect(d, func(n ast.Node) bool {
+				c, ok := n.(*ast.CallExpr)
+				if !ok {
+					return true
+				}
+				if sel, ok := c.Fun.(*ast.SelectorExpr); ok {
+					switch sel.Sel.Name {
+					case "SetDeadline", "SetReadDeadline", "SetWriteDeadline":
+						dls = append(dls, dlCall{filepath.Base(path), encl, sel.Sel.Name, line(c.Pos())})
+					}
+				}
+				return true
+			})
+		}
+	}
+	b.WriteString("/-- every call of a method named SetDeadline / SetReadDeadline / SetWriteDeadline in the non-test files of\n")
+	b.WriteString("    pkg/collector: (enclosing top-level function, method)")
+	for _, d := range dls {
+		fmt.Fprintf(&b, "\n    %s:%d %s.%s", d.file, d.line, d.fn, d.method)
+	}
+	b.WriteString(" -/\n")
+	b.WriteString("def deadlineCalls : List (String × String) := [")
+	for i, d := range dls {
+		if i > 0 {
+			b.WriteString(", ")
+		}
+		fmt.Fprintf(&b, "(%s, %s)", q(d.fn), q(d.method))
 	}
 	b.WriteString("]\n\n")
 	b.WriteString("end LocksCollector\nend Generated\n")
